@@ -212,6 +212,12 @@ def dump(dbs, f, **_options):
                         length=str(int(signal.size)))
                     if not signal.is_little_endian:
                         multiplexor_elem.set('endianess', "big")
+                    mux_consumer = lxml.etree.Element('Consumer')
+                    for receiver in signal.receivers:
+                        if receiver in node_list and len(receiver) > 1:
+                            mux_consumer.append(lxml.etree.Element('NodeRef', id=str(node_list[receiver])))
+                    if len(mux_consumer) > 0:
+                        multiplexor_elem.append(mux_consumer)
                     value = lxml.etree.Element('Value')
                     if float(signal.min) != 0:
                         value.set('min', "%g" % signal.min)  # type: ignore
